@@ -27,17 +27,35 @@ CHANNEL_TABLES = ["mailboxes", "mailbox_sides", "nameplates", "nameplate_sides",
 
 
 class NullLog:
+    errors = []
+
     def msg(self, *a, **k):
         pass
 
     def err(self, *a, **k):
-        pass
+        NullLog.errors.append(a[0] if a else None)
+
+
+def _fresh_rows(rows):
+    return [r.fresh() if hasattr(r, "fresh") else r for r in rows]
 
 
 class SymAppNamespace(REAL_APPNS):
+    """the real AppNamespace; registries keyed by client data become SymDicts, and the two pure
+    summary functions are explored exhaustively *in place* and merged (engine.merge_call) instead of
+    forking the whole operation once per ordering of side rows and per mood"""
+
     def __init__(self, *a, **k):
         REAL_APPNS.__init__(self, *a, **k)
         self._mailboxes = SymDict(list(self._mailboxes.items()))
+
+    def _summarize_mailbox(self, side_rows, delete_time, pruned):
+        real = REAL_APPNS._summarize_mailbox
+        return E().merge_call(real, lambda: (self, _fresh_rows(side_rows), delete_time, pruned))
+
+    def _summarize_nameplate_usage(self, side_rows, delete_time, pruned):
+        real = REAL_APPNS._summarize_nameplate_usage
+        return E().merge_call(real, lambda: (self, _fresh_rows(side_rows), delete_time, pruned))
 
 
 class Factory:
@@ -72,11 +90,11 @@ class SymMsg:
         p = self.pres.get(k, False)
         return z3.BoolVal(p) if isinstance(p, bool) else p
 
-    def concretise(self, model):
+    def concretise(self, dec):
         out = {}
         for k, p in self.pres.items():
-            if conc(model, p) if not isinstance(p, bool) else p:
-                out[k] = conc(model, self.val[k])
+            if conc(dec, p) if not isinstance(p, bool) else p:
+                out[k] = conc(dec, self.val[k])
         return out
 
     def __setitem__(self, k, v):
@@ -100,7 +118,7 @@ class Clock:
         t = d if self.last is None else self.last + d
         self.last = t
         self.values.append(t)
-        self.w.script_env("clock", t)
+        self.w.script_env("clock", SNum(t))
         return SNum(t)
 
 
@@ -118,7 +136,7 @@ class RandomStub:
             e.assume(z3.Or(*[r.z == Z(x) for x in seq]))
         else:
             raise Unsupported("random.choice over non-strings")
-        self.w.script_env("choice", r.z)
+        self.w.script_env("choice", r)
         return r
 
     def randrange(self, a, b=None):
@@ -127,7 +145,7 @@ class RandomStub:
         e = E()
         r = e.sym_int("rrange")
         e.assume(z3.And(r.z >= a, r.z < b))
-        self.w.script_env("randrange", r.z)
+        self.w.script_env("randrange", r)
         return r
 
 
@@ -169,6 +187,7 @@ class SymWorld:
         self.bundles = []
         self.conns = []
         self.phase = "setup"
+        NullLog.errors = []
         self.install()
         self.server = self._make_server()
 
@@ -201,14 +220,65 @@ class SymWorld:
         WS.dict_to_bytes, WS.bytes_to_dict = REAL["d2b"], REAL["b2d"]
 
     def _make_server(self):
+        """build the service exactly as twistd would: the real makeService with its collaborators
+        (rlimits, database creation, listening endpoint) stubbed; returns the real Server and keeps
+        the real expire() closure and TimerService period"""
         c = self.cfg
         w = c["welcome"]
-        srv = S.make_server(self.db, allow_list=c["allow_list"], blur_usage=c["blur"],
-                            usage_db=self.usage,
-                            advertise_version=w.get("current_cli_version"),
-                            signal_error=w.get("error"), welcome_motd=w.get("motd"))
+        opts = TAP.Options()
+        symbolic_blur = isinstance(c["blur"], SNum)
+        # a symbolic interval cannot pass the "%d" log line in make_server: plumb a placeholder
+        # through makeService, check it arrives, then install the symbolic value
+        opts["blur-usage"] = 7919 if symbolic_blur else c["blur"]
+        opts["allow-list"] = c["allow_list"]
+        opts["advertise-version"] = w.get("current_cli_version")
+        opts["signal-error"] = w.get("error")
+        opts["motd"] = w.get("motd")
+        opts["channel-db"] = "<channel>"
+        opts["usage-db"] = "<usage>" if self.usage is not None else None
+        opts["port"] = "tcp:0"
+        saved = (TAP.increase_rlimits, TAP.create_or_upgrade_channel_db, TAP.create_or_upgrade_usage_db)
+        TAP.increase_rlimits = lambda: None
+        TAP.create_or_upgrade_channel_db = lambda path: self.db
+        TAP.create_or_upgrade_usage_db = lambda path: (self.usage if path is not None else None)
+        try:
+            parent = TAP.makeService(opts)
+        finally:
+            TAP.increase_rlimits, TAP.create_or_upgrade_channel_db, TAP.create_or_upgrade_usage_db = saved
+        from twisted.application.internet import TimerService
+        servers = [x for x in parent if isinstance(x, S.Server)]
+        timers = [x for x in parent if isinstance(x, TimerService)]
+        if len(servers) != 1 or len(timers) != 1:
+            raise Unsupported("makeService did not produce exactly one Server and one TimerService")
+        srv = servers[0]
+        if symbolic_blur:
+            if srv._blur_usage != 7919:
+                raise Unsupported("makeService does not pass blur-usage through to the Server")
+            srv._blur_usage = c["blur"]
+        self.timer = timers[0]
+        self.expire_fn = timers[0].call[0]
+        self.period = timers[0].step
+        self.service = parent
         srv._apps = SymDict(list(srv._apps.items()))
         return srv
+
+    def expire(self):
+        """one firing of the service timer: the real expire() closure"""
+        self.script.append(("expire", self.phase))
+        NullLog.errors = []
+        ret = None
+        try:
+            self.expire_fn(*self.timer.call[1], **self.timer.call[2])
+        except (Abort, Inconclusive):
+            raise
+        except Exception as ex:
+            if self.phase == "step":
+                self.obs.append(("exc", "expire", type(ex).__name__))
+            ret = ex
+        self.sweep_errors = list(NullLog.errors)
+        if self.phase == "step":
+            self.obs.append(("sweep_errors", len(self.sweep_errors)))
+        return ret
 
     def script_env(self, kind, term):
         self.script.append(("env", kind, term))
@@ -224,7 +294,7 @@ class SymWorld:
         for x in self.fresh_ids + self.known_ids():
             e.assume(x != r.z)
         self.fresh_ids.append(r.z)
-        self.script_env("mailbox_id", r.z)
+        self.script_env("mailbox_id", r)
         return r
 
     def known_ids(self):
